@@ -165,6 +165,9 @@ func TestC05_Cache(t *testing.T) {
 			asciiOnly(tok.Draw(t, "q5w")[:2]),
 			rapid.SampledFrom([]string{" ", "  ", "\t", " \t "}).Draw(t, "q6-blank"), // blank, not empty: the typo fallback still matches blanks
 			// phrases the language heuristics look for in the raw text (re-spelled in other letter cases below)
+			// longer than any cut-off a key function might apply, and differing only after byte 1000
+			asciiOnly(strings.Repeat("pad ", 250) + tok.Draw(t, "q8w")),
+			asciiOnly(strings.Repeat("pad ", 250) + tok.Draw(t, "q9w")),
 			asciiOnly(rapid.SampledFrom([]string{"previewing", "looking at", "reading", "display", "overview of"}).Draw(t, "q7-view") + " " + tok.Draw(t, "q7w") + " " + rapid.SampledFrom([]string{"without opening it", "without editing", "without opening"}).Draw(t, "q7-clue")),
 		}
 		opts := c05Options(t, toks)
